@@ -198,10 +198,38 @@ def run_model(module, cfg=None, workers=None, env=None, timeout=3600, extra=None
             shutil.rmtree(wd, ignore_errors=True)
 
 
+class Packed:
+    """A recorded event kept as its JSON text (a tenth of the memory of the nested dicts); only the id and the
+    grouping key stay accessible.  Drivers pack events they no longer need to look into."""
+    __slots__ = ('id', 'key', 'text')
+
+    def __init__(self, ev, group_key=None):
+        self.id = ev['id']
+        self.key = ev.get(group_key) if group_key else None
+        self.text = json.dumps(ev, separators=(',', ':'))
+
+    def __getitem__(self, k):
+        if k == 'id':
+            return self.id
+        return self.key
+
+    def get(self, k, default=None):
+        return self.id if k == 'id' else (self.key if self.key is not None else default)
+
+
+def pack(ev, group_key=None):
+    return ev if isinstance(ev, Packed) else Packed(ev, group_key)
+
+
 def _run_shard(module, wd, idx, events, consts, timeout, heap):
     path = os.path.join(wd, 'shard%02d.json' % idx)
     with open(path, 'w') as f:
-        json.dump(events, f, separators=(',', ':'))
+        f.write('[')
+        for i, ev in enumerate(events):
+            if i:
+                f.write(',')
+            f.write(ev.text if isinstance(ev, Packed) else json.dumps(ev, separators=(',', ':')))
+        f.write(']')
     env = {'TRACE_FILE': path}
     if consts:
         for k, v in consts.items():
